@@ -67,13 +67,14 @@ _DED = {
     "C05": "Discharged: squash_changes with the client block modelled as an arbitrary sequence of operations on the batch trie (havoc of the batch trie constrained by its own contracts): normal exit adopts the batch root and commits the buffered writes (deletes only when pruning), exceptional exit and a failing write during commit leave root, store entries and reference counts as before; ScratchDB.batch_commit all-or-nothing. `no node that served only intermediate states is added` is bounded only.",
     "C06": "Discharged: _prune_node (one more pending prune iff the node is hashed and the trie prunes), _persist_node / _set_raw_node counting, _complete_pruning (per-key loop invariant: decrement, delete at zero), squash_changes adopting the batch's counts. The global accounting invariant (count = number of references in the live trie, after every history) is a whole-history property carried by the bounded stand-in and by regenerate_ref_count comparison, not by a pyvc obligation.",
     "C07": "Discharged: _traverse_from / _traverse / _get / get / exists raise MissingTraversalNode / MissingTrieNode only with a hash absent from the database, with the consumed prefix of the key, and such that the named node lies on the requested path right after that prefix (view equation for an arbitrary continuation); get names the root and the key; lookups modify nothing (frame obligations). Write path (non-pruning): a failing _set / _delete / set / delete has written nothing to the database and left the root unchanged (reads precede writes: _delete returns blank exactly when nothing was written), and names an absent hash with root and key. That the hash named by a failing *write* lies on the key's path, reference counts on failure of pruning tries, and the retry-converges clause are bounded only.",
-    "C08": "Discharged: _traverse_from / _traverse: the node reached holds exactly the keys below the consumed prefix (view equation for an arbitrary continuation), the remainder is a suffix of the key, a non-empty remainder lies strictly inside a leaf / extension path; node classification and key extraction. annotate_node, simulated nodes, traverse / traverse_from wrappers and root_node are bounded only.",
+    "C08": 'Discharged: _traverse_from / _traverse (the node reached holds exactly the keys below the consumed prefix -- view equation for an arbitrary continuation --, the remainder is a suffix of the key, a non-empty remainder lies strictly inside a leaf / extension path); annotate_node (type, sub-segments, value, suffix are the spec functions of the raw node; the branch comprehension is handled without a 2^16 case split); traverse, traverse_from and root_node: the returned annotated node is the node at that position, a TraversedPartialPath carries pieces that make up the path, the enclosing leaf / extension, a tail that runs (properly) into its path and a simulated node that is that node with the tail cut off; missing-node reports as in C07. `blank exactly when no stored key starts with the path` (needs: a non-blank canonical node holds a key) and `at most one database entry per child hop` are bounded only.',
     "C12": "Discharged: BinaryTrie._get = blk; _set: view clause for insert / delete / delete-subtrie on all paths, refusal exactly when the walk says so (brefuse), store only grows by content-addressed writes, insert never yields the blank root; get / exists / set / delete / delete_subtrie wrappers (root unchanged on refusal). Canonical form / history independence: Lean B.lean + bounded.",
     "C13": "Discharged: BinaryTrie._get (the function if_branch_valid evaluates), parse_node and the node encoders. The branch generators of branches.py are bounded only.",
-    "C15": "Discharged: SparseMerkleProof.update -- wrong key size and too-short update lists are refused before any assignment, an update of the tracked key changes only the value, any other update changes only the sibling at the first differing bit and reads only node_updates[branch_point] (bit operations through testbit / bxor, DESIGN 6.3). The synchronisation invariant with the tree is Lean S.lean + bounded.",
+    "C14": "Discharged for every key size and default: SparseMerkleTree._get (loop invariant: the walk follows the key bits, the branch holds the siblings root to leaf), get / branch / exists / [] / in (a blank value reads as absent), set (bottom-up loop invariant: for an arbitrary probe key the new subtree reads as the old one except at the written key; the store only grows by content-addressed writes; the tree stays well formed), delete / []= / del [] (= set with the default), __init__ (every key reads as the default, tree well formed, store content addressed), from_db (database, root, key size and default are taken over), calc_root (reproduces the root of a consistent tree). Well-formedness -- every inner node is a pair of 32-byte hashes -- is a representation invariant: assumed on entry, proved on exit of __init__ and set. Not discharged: that the hashes returned by set / delete are the updated path hashes (only their number), root = Merkle root of the full depth-8*key_size tree and its history independence (Lean S.lean + bounded), and the step from `same low D bits` to `same key` (bit extensionality).",
+    "C15": "Discharged: SparseMerkleProof.update -- wrong key size and too-short update lists are refused before any assignment, an update of the tracked key changes only the value, any other update changes only the sibling at the first differing bit and reads only node_updates[branch_point] (bit operations through testbit / bxor, DESIGN 6.3); calc_root reproduces the root of a consistent tree from the leaf content and the siblings on the key's path. The synchronisation invariant with the tree over a stream of updates and the root_hash / branch / value properties are Lean S.lean + bounded.",
     "C16": "Discharged for all lengths: bytes_to_nibbles / nibbles_to_bytes (element-wise, array encoding) and their inverse lemmas; encode_nibbles = HP and decode_nibbles with hp_roundtrip; encode_to_bin / decode_from_bin with bits_roundtrip; key-path packing round trip (the two real functions executed back to back); encode_kv/branch/leaf_node and parse_node with every rejection case; get_node_type, extract_key, is_leaf_node, is_extension_node, compute_*_key.",
     "C17": "Discharged: every clause of the property on the six methods of ScratchDB, including the commit loop (invariant over the set of processed keys).",
-    "C18": "Discharged: 40 entry points of HexaryTrie, BinaryTrie, SparseMerkleTree, calc_root, SparseMerkleProof and the branch helpers raise the stated exception on ill-typed / ill-sized arguments before any field, database entry or reference count is written.",
+    "C18": 'Discharged: 41 entry points of HexaryTrie, BinaryTrie, SparseMerkleTree, calc_root, SparseMerkleProof and the branch helpers raise the stated exception on ill-typed / ill-sized arguments (and a reference count handed to a non-pruning trie, a snapshot from a pruning trie, a key size outside 1..32) before any field, database entry or reference count is written.',
 }
 for _pid, _t in _DED.items():
     PROPERTY_TEXT[_pid]["level_text"] = PROPERTY_TEXT[_pid]["level_text"] + " DEDUCTIVE PART: " + _t
